@@ -946,7 +946,7 @@ def run(ctx):
                "invariants established in the builder")
 
 
-def run_narrow(ctx, only=None):
+def run_narrow(ctx, only=None, casts=True):
     """NARROW: narrowing `as` casts on the tokenization path (below Worker::tokenize and the
     token accessors) must be provably range-preserving; a wrapped index or id silently selects
     another node / dictionary entry."""
@@ -958,12 +958,44 @@ def run_narrow(ctx, only=None):
                                                         "vibrato::token::Token")]
     reach = cg.reachable(roots)
     ctx.floor("NARROW", "functions on the tokenization path", len(reach), 40)
-    sites = [s for s in enumerate_sites(crate, E, reach) if s.kind == "cast"]
+    all_sites = enumerate_sites(crate, E, reach)
+    sites = [s for s in all_sites if s.kind == "cast"]
     ctx.floor("NARROW", "narrowing casts found", len(sites), 3)
+    arith = [s for s in all_sites if s.kind == "assert:Overflow"]
+    ctx.floor("NARROW", "overflow-checked arithmetic sites on the tokenization path", len(arith), 20)
     if only:
         sites = [s for s in sites if only(s.fn)]
+        arith = [s for s in arith if only(s.fn)]
     ctx.count("NARROW", "narrowing casts on the tokenization path", len(sites))
-    for s in sites:
+    # NARROW-ARITH: arithmetic carried out in an 8/16-bit type (ids, category numbers, lengths)
+    # overflows for values that are legal members of that type: the builder accepts every id up
+    # to the type's maximum, so `id + 1` in u16 panics (or wraps with checks off) for id 65535.
+    narrow_n = 0
+    for s in arith:
+        fa = E.fa(s.fn)
+        ty = overflow_type(fa, s.data["term"])
+        if ty is None:
+            raise EngineError("NARROW: cannot type the overflow check at %s" % s.loc)
+        if INT_BITS.get(ty, 64) > 16:
+            continue
+        narrow_n += 1
+        r = discharge(crate, E, s)
+        ok = r is not None
+        why = r[1] if r else ""
+        if not ok:
+            e = {x["key"]: x for x in load_table()["entries"]}.get("NARROW|" + s.key)
+            if e is not None:
+                gok, gtxt = check_guard(ctx, crate, E, e["guard"]) if e.get("guard") else (True, "")
+                ok, why = gok, e["reason"] + (" [guard: %s]" % gtxt if gtxt else "")
+        ctx.ob("NARROW", s.key, ok, s.loc,
+               "%s-bit arithmetic %s in %s cannot overflow (%s)" % (ty, s.desc, s.fn.split("::")[-1], why)
+               if ok else
+               "arithmetic %s is carried out in %s in %s on the tokenization path: a value that "
+               "the builder accepts (up to %s::MAX) overflows here, so an accepted dictionary "
+               "panics (or, with overflow checks off, selects another row) during tokenization"
+               % (s.desc, ty, s.fn, ty))
+    ctx.count("NARROW", "8/16-bit arithmetic sites on the tokenization path", narrow_n)
+    for s in (sites if casts else []):
         r = discharge(crate, E, s)
         fa = E.fa(s.fn)
         ok = r is not None
@@ -992,12 +1024,37 @@ def run_narrow(ctx, only=None):
                "a large count silently selects another node / entry" % (s.desc, s.fn))
 
 
+def overflow_type(fa, term):
+    """Integer type an overflow-checked operation is carried out in (from its (T, bool) result)."""
+    if term["msg"].get("op") in ("Shl", "Shr"):
+        return "shift"      # the check is on the shift amount, not on the value's width
+    pl = term["cond"].get("m") or term["cond"].get("c")
+    if pl is None:
+        return None
+    ty = fa.fn.locals[pl["l"]]["ty"]
+    m = re.match(r"\((\w+), bool\)$", ty)
+    if m:
+        return m.group(1)
+    # OverflowNeg and shifts compare directly: use the operand's type
+    return None
+
+
 def run_narrow_lattice(ctx):
     run_narrow(ctx, lambda fn: "tokenizer::" in fn or "token::" in fn)
 
 
 def run_narrow_dict(ctx):
     run_narrow(ctx, lambda fn: "tokenizer::" not in fn and "token::" not in fn)
+
+
+def run_narrow_connector(ctx):
+    run_narrow(ctx, lambda fn: "::connector::" in fn)
+
+
+def run_narrow_arith(ctx):
+    """8/16-bit arithmetic anywhere below Worker::tokenize / Token (C10: an accepted dictionary
+    tokenizes every string without panicking)."""
+    run_narrow(ctx, None, casts=False)
 
 
 def run_errprop(ctx):
